@@ -39,15 +39,21 @@ package match
 //@     && (updated != nil ==> (forall c any :: old(has(updated, c)) ==> has(updated, c))
 //@         && (forall c any :: notified[c] - old(notified[c]) == ite(has(updated, c) && !old(has(updated, c)), 1, 0)))
 //@     && (forall c any :: $visited[c] ==> notified[c] >= old(notified[c]))
+//@     && (updated == nil ==> (forall c any :: $visited[c] ==> notified[c] >= old(notified[c]) + 1))
+//@     && (updated != nil ==> (forall c any :: $visited[c] ==> has(updated, c)))
 //@     && (forall x ref :: visitedB[x] <==> (old(visitedB[x]) || x == b))
 //@     && (forall x ref :: typed(x, "branch") ==> dom(heapsel("branch.clients", x)) == old(dom(heapsel("branch.clients", x))))
 //@   invariant 1: [implicit-recursion-reaches-every-child] (forall k string :: $visited[k] ==> visitedB[b.children[k]])
+//@     && (updated == nil ==> (forall c any :: old(has(b.clients, c)) ==> notified[c] >= old(notified[c]) + 1))
+//@     && (updated != nil ==> (forall c any :: old(has(b.clients, c)) ==> has(updated, c)))
 //@     && (forall x ref :: old(visitedB[x]) || x == b ==> visitedB[x])
 //@     && (forall x ref :: typed(x, "branch") ==> dom(heapsel("branch.clients", x)) == old(dom(heapsel("branch.clients", x))))
 //@     && (forall c any :: notified[c] >= old(notified[c]))
 //@     && (updated != nil ==> (forall c any :: old(has(updated, c)) ==> has(updated, c))
 //@         && (forall c any :: notified[c] - old(notified[c]) == ite(has(updated, c) && !old(has(updated, c)), 1, 0)))
 //@   invariant 2: [glob-path-reaches-every-child] (forall k string :: $visited[k] ==> visitedB[b.children[k]])
+//@     && (updated == nil ==> (forall c any :: old(has(b.clients, c)) ==> notified[c] >= old(notified[c]) + 1))
+//@     && (updated != nil ==> (forall c any :: old(has(b.clients, c)) ==> has(updated, c)))
 //@     && (forall x ref :: old(visitedB[x]) || x == b ==> visitedB[x])
 //@     && (forall x ref :: typed(x, "branch") ==> dom(heapsel("branch.clients", x)) == old(dom(heapsel("branch.clients", x))))
 //@     && (forall c any :: notified[c] >= old(notified[c]))
@@ -60,6 +66,8 @@ package match
 //@   ensures [nothing-missed C06] forall k string :: has(b.children, k) && Compat1(k, path) ==> visitedB[b.children[k]]
 //@   ensures [visited-grows] forall x ref :: old(visitedB[x]) || x == b ==> visitedB[x]
 //@   ensures [never-un-notified] forall c any :: notified[c] >= old(notified[c])
+//@   ensures [every-client-of-this-node-is-offered-the-update C06] (updated == nil ==> (forall c any :: old(has(b.clients, c)) ==> notified[c] >= old(notified[c]) + 1))
+//@     && (updated != nil ==> (forall c any :: old(has(b.clients, c)) ==> has(updated, c)))
 //@   ensures [at-most-once-with-shared-set C06] updated != nil ==> (forall c any :: old(has(updated, c)) ==> has(updated, c))
 //@     && (forall c any :: notified[c] - old(notified[c]) == ite(has(updated, c) && !old(has(updated, c)), 1, 0))
 
@@ -145,6 +153,8 @@ package match
 //@   requires [updated-is-not-a-trie-map] updated == nil || (forall x ref :: typed(x, "branch") ==> heapsel("branch.clients", x) != updated)
 //@   modifies ghost notified, ghost visitedB, mapof(updated)
 //@   ensures [never-un-notified] forall c any :: notified[c] >= old(notified[c])
+//@   ensures [every-client-of-the-root-is-offered-the-update C06] (updated == nil ==> (forall c any :: old(has(m.tree.clients, c)) ==> notified[c] >= old(notified[c]) + 1))
+//@     && (updated != nil ==> (forall c any :: old(has(m.tree.clients, c)) ==> has(updated, c)))
 //@   ensures [at-most-once-with-shared-set C06] updated != nil ==> (forall c any :: old(has(updated, c)) ==> has(updated, c))
 //@     && (forall c any :: notified[c] - old(notified[c]) == ite(has(updated, c) && !old(has(updated, c)), 1, 0))
 //@   ensures [whole-trie-consulted C06] visitedB[m.tree]
